@@ -88,7 +88,8 @@ impl<T: ValueView> ArrayView for Vec<T> {
 
     fn contains_key(&self, index: i64) -> bool {
         let index = convert_index(index, self.size());
-        index < self.size()
+        // an index below `-size` stays negative after conversion: `get` finds nothing there
+        (0..self.size()).contains(&index)
     }
 
     fn get(&self, index: i64) -> Option<&dyn ValueView> {
